@@ -415,6 +415,31 @@ func (b *builder) add(kind string) bool {
 			return true
 		}
 		return false
+	case "foundation": // a v2 transaction of the management address moves the foundation (subsidy) address
+		if !b.v2ok() {
+			return false
+		}
+		var mgmt party
+		switch cs.FoundationManagementAddress {
+		case W.addr:
+			mgmt = W
+		case O.addr:
+			mgmt = O
+		default:
+			return false
+		}
+		c, ok := b.coin(mgmt, sc(2))
+		if !ok {
+			return false
+		}
+		to := []types.Address{W.addr, O.addr, W.addr, O.addr, types.StandardUnlockHash(types.PublicKey{7})}[rng.Intn(5)]
+		txn := types.V2Transaction{SiacoinInputs: []types.V2SiacoinInput{{Parent: c}},
+			SiacoinOutputs: []types.SiacoinOutput{{Address: mgmt.addr, Value: c.SiacoinOutput.Value.Sub(fee)}}, MinerFee: fee, NewFoundationAddress: &to}
+		signV2(cs, &txn, mgmt)
+		b.v2 = append(b.v2, txn)
+		if b.child() == w.net.N.HardforkFoundation.Height {
+			kind = fmt.Sprintf("foundation-in-subsidy-block:from-wallet=%v,to-wallet=%v", cs.FoundationSubsidyAddress == W.addr, to == W.addr)
+		}
 	default:
 		panic("unknown kind " + kind)
 	}
@@ -429,7 +454,7 @@ func (w *world) partyOf(pk types.PublicKey) party {
 	return w.O
 }
 
-var allKinds = []string{"v1pay", "v2pay", "v1eph", "v2eph", "v1sf", "v2sf", "v1form", "v1proof", "v2form", "v2expire", "v2proof", "v2renew"}
+var allKinds = []string{"v1pay", "v2pay", "v1eph", "v2eph", "v1sf", "v2sf", "v1form", "v1proof", "v2form", "v2expire", "v2proof", "v2renew", "foundation"}
 
 // assemble builds a block with a valid commitment and proof of work on the state cs.
 func assemble(cs consensus.State, ts time.Time, miner types.Address, v1 []types.Transaction, v2 []types.V2Transaction, salt uint64) types.Block {
@@ -459,6 +484,11 @@ func (w *world) mineOn(parent int, n int) int {
 	cs := tw.CM.TipState()
 	led := chainx.LedgerOf(tw)
 	b := &builder{w: w, cs: cs, led: led, tw: tw, usedSC: map[types.SiacoinOutputID]bool{}, usedSF: map[types.SiafundOutputID]bool{}, usedFC: map[types.FileContractID]bool{}}
+	// the block that pays the (initial) foundation subsidy: the subsidy goes to the address of the
+	// parent state, also when a transaction of the very same block moves the address
+	if b.child() == w.net.N.HardforkFoundation.Height && w.rng.Chance(2, 3) {
+		b.add("foundation")
+	}
 	// resolutions are possible only in a few blocks of a contract's life: try them first
 	for _, k := range []string{"v1proof", "v2proof", "v2expire", "v2renew"} {
 		if w.rng.Chance(1, 2) {
@@ -503,11 +533,23 @@ func newWorld(rng *vh.RNG) *world {
 	net := chainx.NewNet(rng, allow, require, uint64(1+rng.Intn(3)))
 	w := &world{rng: rng, net: net, W: newParty(net.SK), O: newParty(net.SK2), kinds: map[string]int{}, bad: map[string]int{}}
 	net.N.HardforkFoundation.Height = uint64(1 + rng.Intn(6)) // the block that pays the initial subsidy
-	if net.N.HardforkFoundation.Height > allow {
+	if net.N.HardforkFoundation.Height > allow || rng.Chance(1, 2) {
+		// (v2 may not precede the foundation hardfork) often both at the same height, so that the
+		// subsidy block can carry a v2 transaction that moves the foundation address
 		net.N.HardforkFoundation.Height = allow
 	}
-	if rng.Bool() {
+	// the wallet or the other party as subsidy (primary) and management (failsafe) address
+	switch rng.Intn(4) {
+	case 0, 1:
 		net.N.HardforkFoundation.PrimaryAddress = w.W.addr
+	case 2:
+		net.N.HardforkFoundation.PrimaryAddress = w.O.addr
+	}
+	switch rng.Intn(3) {
+	case 0, 1:
+		net.N.HardforkFoundation.FailsafeAddress = w.W.addr // W owns the genesis coins: it can sign from block 1 on
+	case 2:
+		net.N.HardforkFoundation.FailsafeAddress = w.O.addr
 	}
 	w.t = chainx.NewTree(net)
 	return w
